@@ -270,7 +270,7 @@ func (e *Engine) atoms() []*Atom {
 
 var EditKinds = []string{
 	"src-content", "src-content", "src-touch", "src-rewrite-same", "src-rewrite-rename", "dir-add", "dir-del", "dir-rename",
-	"atom-lit", "atom-lit", "atom-lit", "atom-default", "tgt-extra", "comment", "comment", "docstring", "dep-add", "dep-remove", "tgt-add",
+	"src-delete", "src-restore", "atom-lit", "atom-lit", "atom-lit", "atom-default", "tgt-extra", "comment", "comment", "docstring", "dep-add", "dep-remove", "tgt-add",
 	"tgt-remove", "output-delete", "flag", "const-add",
 }
 
@@ -288,11 +288,46 @@ func (e *Engine) Edit(kind string) bool {
 		srcs := e.sortedSrcs()
 		rel := srcs[r.IntN(len(srcs))]
 		e.P.Srcs[rel] = fmt.Sprintf("edited at %d: %d\n", e.M.Clock, r.IntN(1000000))
+		delete(e.P.Missing, rel)
 		os.WriteFile(filepath.Join(root, rel), []byte(e.P.Srcs[rel]), 0o644)
 		for _, t := range e.srcTargets(rel) {
 			e.relevant(t.Label())
 		}
 		e.step("edit", "src-content "+rel)
+	case "src-delete":
+		// the file of a still declared source disappears
+		var cands []string
+		for _, rel := range e.sortedSrcs() {
+			if !e.P.Missing[rel] && !strings.Contains(rel, "dir0/") {
+				cands = append(cands, rel)
+			}
+		}
+		if len(cands) == 0 {
+			return false
+		}
+		rel := cands[r.IntN(len(cands))]
+		if e.P.Missing == nil {
+			e.P.Missing = map[string]bool{}
+		}
+		e.P.Missing[rel] = true
+		os.Remove(filepath.Join(root, rel))
+		e.step("edit", "src-delete "+rel)
+	case "src-restore":
+		// ... and comes back with identical content
+		var cands []string
+		for rel := range e.P.Missing {
+			if e.P.Missing[rel] {
+				cands = append(cands, rel)
+			}
+		}
+		if len(cands) == 0 {
+			return false
+		}
+		sort.Strings(cands)
+		rel := cands[r.IntN(len(cands))]
+		delete(e.P.Missing, rel)
+		os.WriteFile(filepath.Join(root, rel), []byte(e.P.Srcs[rel]), 0o644)
+		e.step("edit", "src-restore "+rel)
 	case "src-touch":
 		srcs := e.sortedSrcs()
 		rel := srcs[r.IntN(len(srcs))]
@@ -302,6 +337,9 @@ func (e *Engine) Edit(kind string) bool {
 	case "src-rewrite-same", "src-rewrite-rename":
 		srcs := e.sortedSrcs()
 		rel := srcs[r.IntN(len(srcs))]
+		if e.P.Missing[rel] {
+			return false
+		}
 		p := filepath.Join(root, rel)
 		if kind == "src-rewrite-same" {
 			os.WriteFile(p, []byte(e.P.Srcs[rel]), 0o644)
